@@ -30,6 +30,11 @@ Run  == Case.runs[rid]
 Opts == Run.opts
 Ev(i) == Run.ev[i]
 
+\* the model the events of this run were produced on
+RunCfg == IF Run.op = "backward" THEN BackwardCfg(Cfg, Run.args.due) ELSE Cfg
+Pre == IF rid > 1 THEN Case.runs[rid - 1].final ELSE Run.final
+IsSim == Run.op = "simulate"
+
 Check(name, cond) == cond \/ PrintT(<<"FAIL", name, Cfg.id, rid, l>>)
 CheckAll(cl) == \A i \in DOMAIN cl: Check(cl[i][1], cl[i][2])
 On(p, cl) == IF p \in Props THEN cl ELSE <<>>
@@ -50,37 +55,40 @@ Base == IF l > 0 /\ Ev(l).base > 0 THEN Ev(Ev(l).base).st ELSE Ev(l).st
 Conforms ==
   LET e == Ev(l)  ph == e.ph  s == e.st
   IN CASE ph = "init" ->
-            /\ l = 1
-            /\ (Opts.initState /\ Opts.initLog => s = InitF(Cfg))
+            /\ (l = 1 \/ (l = 2 /\ Ev(1).ph = "bw_enter"))
+            /\ (Opts.initState /\ Opts.initLog => s = InitF(RunCfg))
+            /\ (~Opts.initState /\ ~Opts.initLog /\ rid > 1 /\ IsSim => s = [Pre.st EXCEPT !.mode = "FORWARD"])
+       [] ph = "bw_enter" -> l = 1 /\ Run.op = "backward"
+       [] ph = "bw_exit" -> l = Len(Run.ev) /\ Run.op = "backward"
        [] ph = "finished" ->
             /\ l > 1 /\ Ev(l - 1).ph \in {"init", "recorded"}
-            /\ s = UpdateFinF(Cfg, PrevSt)
-       [] ph = "unplaced" -> l > 1 /\ Ev(l - 1).ph = "finished" /\ s = UnplaceF(Cfg, Ev(l - 1).st)
-       [] ph = "ready"    -> l > 1 /\ Ev(l - 1).ph = "unplaced" /\ s = UpdateReadyF(Cfg, Ev(l - 1).st)
-       [] ph = "updated"  -> l > 1 /\ Ev(l - 1).ph = "ready" /\ s = PertF(Cfg, Ev(l - 1).st)
+            /\ s = UpdateFinF(RunCfg, PrevSt)
+       [] ph = "unplaced" -> l > 1 /\ Ev(l - 1).ph = "finished" /\ s = UnplaceF(RunCfg, Ev(l - 1).st)
+       [] ph = "ready"    -> l > 1 /\ Ev(l - 1).ph = "unplaced" /\ s = UpdateReadyF(RunCfg, Ev(l - 1).st)
+       [] ph = "updated"  -> l > 1 /\ Ev(l - 1).ph = "ready" /\ s = PertF(RunCfg, Ev(l - 1).st)
        [] ph = "returned" ->
-            /\ AfterUpdate /\ Returns(Cfg, Opts, Ev(l - 1).st)
-            /\ s = ReturnF(Cfg, Opts, Ev(l - 1).st)
-            /\ l = Len(Run.ev)
+            /\ AfterUpdate /\ Returns(RunCfg, Opts, Ev(l - 1).st)
+            /\ s = ReturnF(RunCfg, Opts, Ev(l - 1).st)
+            /\ (l = Len(Run.ev) \/ (l = Len(Run.ev) - 1 /\ Ev(Len(Run.ev)).ph = "bw_exit"))
        [] ph = "presence" ->
-            /\ AfterUpdate /\ ~Returns(Cfg, Opts, Ev(l - 1).st)
-            /\ s = PresenceF(Cfg, Opts, Ev(l - 1).st)
+            /\ AfterUpdate /\ ~Returns(RunCfg, Opts, Ev(l - 1).st)
+            /\ s = PresenceF(RunCfg, Opts, Ev(l - 1).st)
        [] ph = "alloc_task" ->
             /\ e.base > 0 /\ ~IsAbsenceStep(Opts, s.time)
             /\ LET b == Ev(e.base).st
-                   ord == AllocOrder(Cfg, Opts, b)
+                   ord == AllocOrder(RunCfg, Opts, b)
                IN /\ e.k <= Len(ord)
                   /\ e.task = ord[e.k]
-                  /\ s = AllocPrefix(Cfg, Opts, b, e.k).st
+                  /\ s = AllocPrefix(RunCfg, Opts, b, e.k).st
        [] ph = "allocated" ->
             /\ e.base > 0
-            /\ s = AllocF(Cfg, Opts, Ev(e.base).st)
+            /\ s = AllocF(RunCfg, Opts, Ev(e.base).st)
             /\ e.k = (IF IsAbsenceStep(Opts, s.time) THEN 0
-                      ELSE Len(AllocOrder(Cfg, Opts, Ev(e.base).st)))
-       [] ph = "started"   -> l > 1 /\ Ev(l - 1).ph = "allocated" /\ s = StartPhaseF(Cfg, Ev(l - 1).st)
+                      ELSE Len(AllocOrder(RunCfg, Opts, Ev(e.base).st)))
+       [] ph = "started"   -> l > 1 /\ Ev(l - 1).ph = "allocated" /\ s = StartPhaseF(RunCfg, Opts, Ev(l - 1).st)
        [] ph = "cost"      -> l > 1 /\ Ev(l - 1).ph = "started" /\ s = Ev(l - 1).st
-       [] ph = "performed" -> l > 1 /\ Ev(l - 1).ph = "cost" /\ s = PerformF(Cfg, Opts, Ev(l - 1).st)
-       [] ph = "recorded"  -> l > 1 /\ Ev(l - 1).ph = "performed" /\ s = RecordF(Cfg, Opts, Ev(l - 1).st)
+       [] ph = "performed" -> l > 1 /\ Ev(l - 1).ph = "cost" /\ s = PerformF(RunCfg, Opts, Ev(l - 1).st)
+       [] ph = "recorded"  -> l > 1 /\ Ev(l - 1).ph = "performed" /\ s = RecordF(RunCfg, Opts, Ev(l - 1).st)
        [] OTHER -> FALSE
 
 \* ---- L3: property clauses on the recorded event ------------------------------
@@ -113,36 +121,62 @@ IsFreshSimulate == Run.op = "simulate" /\ Opts.initState /\ Opts.initLog
 LogFieldsToCompare ==
   <<"pcost", "ocost", "mcost", "pwcost", "ts", "rem", "aw", "af", "ws", "wcost", "wt",
     "fs", "fcost", "ft", "cs", "cp", "pc">>
-RunClauses ==
+SimRunClauses ==
   LET fin == Run.final
-  IN IF Run.op = "sort"
-     THEN On("C11", C11_F(Cfg, Run)) \o << <<"L2.sort", C11_FConforms(Cfg, Run)>> >>
-     ELSE IF ~IsFreshSimulate THEN <<>>
-     ELSE
-        On("C05", C05_End(Cfg, Opts, fin.st, Run.ret))
+  IN   On("C05", C05_End(Cfg, Opts, fin.st, Run.ret))
      \o On("C13", << <<"C13.R.no-crash", Run.ret # "exc:ValueError">> >>)
      \o On("C11", << <<"C11.R.rule-accepted", Run.ret \notin {"exc:KeyError", "exc:TypeError"}>> >>)
      \o On("C01", C01_L(Cfg, Opts, fin.lg)) \o On("C02", C02_L(Cfg, Opts, fin.lg))
      \o On("C03", C03_L(Cfg, Opts, fin.lg)) \o On("C04", C04_L(Cfg, Opts, fin.lg))
      \o On("C07", C07_L(Cfg, Opts, fin.lg)) \o On("C08", C08_L(Cfg, Opts, fin.lg))
      \o On("C10", C10_L(Cfg, Opts, fin.lg)) \o On("C14", C14_L(Cfg, Opts, fin.lg))
-     \o On("C08", LET spec == FoldedLogs(EmptyLogs(Cfg))
+     \o (IF Len(Run.ev) = 0 THEN <<>> ELSE
+         On("C08", LET spec == FoldedLogs(EmptyLogs(Cfg))
                   IN << <<"C08.L.live-time", fin.lg.time = Len(PerformedStates)>>,
                         <<"C08.L.live-header", fin.lg.status = fin.st.status /\ fin.lg.mode = fin.st.mode
                                                /\ fin.lg.time = fin.st.time>> >>
                      \o [i \in DOMAIN LogFieldsToCompare |->
                            LET f == LogFieldsToCompare[i]
                            IN <<"C08.L.live-" \o f, fin.lg[f] = spec[f]>>])
-     \o On("C07", LET spec == FoldedLogs(EmptyLogs(Cfg))
+         \o On("C07", LET spec == FoldedLogs(EmptyLogs(Cfg))
                   IN << <<"C07.L.live", \A f \in {"pcost", "ocost", "mcost", "pwcost", "wcost", "fcost"}:
-                                           fin.lg[f] = spec[f]>> >>)
-     \o << <<"X.exact", fin.inexact = <<>> >> >>
+                                           fin.lg[f] = spec[f]>> >>))
+
+\* comparison with a reference run of the same case (args.cmp = its index, args.cmpProp = owner)
+CmpClauses ==
+  IF Run.args.cmp = 0 THEN <<>>
+  ELSE LET ref == Case.runs[Run.args.cmp].final
+       IN On(Run.args.cmpProp,
+             << <<Run.args.cmpProp \o ".H.same-result-" \o Run.args.cmpWhat,
+                  CASE Run.args.cmpWhat = "lg" -> SameLogs(Run.final, ref)
+                    \* runs cut off by max_time are not comparable
+                    [] Run.args.cmpWhat = "lg-success" ->
+                         (ref.lg.status = "SUCCESS" /\ Run.final.lg.status = "SUCCESS" => SameLogs(Run.final, ref))
+                    [] OTHER -> SameResult(Run.final, ref)>> >>)
+
+RunClauses ==
+  CmpClauses
+  \o << <<"X.exact", Run.final.inexact = <<>> >> >>
+  \o (IF Run.op \in {"sort", "rebuild", "snapshot"} THEN <<>> ELSE On("C08", C08_H(Cfg, Run)))
+  \o (CASE Run.op = "sort" -> On("C11", C11_F(Cfg, Run)) \o << <<"L2.sort", C11_FConforms(Cfg, Run)>> >>
+        [] Run.op = "simulate" /\ IsFreshSimulate -> SimRunClauses
+        [] Run.op = "simulate" /\ ~IsFreshSimulate ->
+             On("C05", C05_End(Cfg, Opts, Run.final.st, Run.ret))
+             \* (with plain BaseTask objects the visiting order of sets is not the rank order)
+             \o (IF rid > 1 /\ ~Opts.initState /\ ~Opts.initLog /\ ~Run.args.plainTasks
+                 THEN << <<"L2.resume", [st |-> Run.final.st, lg |-> Run.final.lg] = ResumeF(Cfg, Opts, [st |-> Pre.st, lg |-> Pre.lg])>> >>
+                 ELSE <<>>)
+        [] Run.op = "backward" -> On("C17", C17_H(Cfg, Run))
+        [] Run.op = "reverse" -> << <<"L2.reverse", Run.final.lg = ReverseLogsF(Pre.lg) /\ Run.final.st = Pre.st>> >>
+        [] Run.op \in {"remove_absence", "insert_absence"} -> On("C18", C18_H(Cfg, Run, Pre))
+        [] Run.op = "saveload" -> On("C16", C16_H(Cfg, Run, Pre))
+        [] OTHER -> <<>>)
 
 Judge ==
   IF l = 0 THEN CheckAll(RunClauses)
   ELSE /\ Check("L2." \o Ev(l).ph, Conforms)
        /\ Check("X.exact", Ev(l).inexact = <<>>)
-       /\ CheckAll(StateClauses(Ev(l).ph, Ev(l).st))
-       /\ (l > 1 => CheckAll(StepClauses(Ev(l).ph, PrevSt, Ev(l).st, Base)))
-       /\ ("C13" \in Props => Check("C13.A.once", MovesOnce))
+       /\ (IsSim => CheckAll(StateClauses(Ev(l).ph, Ev(l).st)))
+       /\ (IsSim /\ l > 1 => CheckAll(StepClauses(Ev(l).ph, PrevSt, Ev(l).st, Base)))
+       /\ (IsSim /\ "C13" \in Props => Check("C13.A.once", MovesOnce))
 =============================================================================
